@@ -183,6 +183,8 @@ def run_c19(ck):
         for k in ks:
             # the power itself and its two neighbours (2^64 - 1 is the largest index type value)
             for suffix, e in (("", "(1 << %d)" % k), ("-below", "((1 << %d) - 1)" % k), ("-below2", "((1 << %d) - 2)" % k)):
+                if k < 2 and suffix == "-below2":
+                    continue            # 2^1 - 2 is zero: not a magnitude (and rightly an error in most positions)
                 plan.append((name + suffix, -1, False, k, {"main.asm": gen(e), "data.bin": b"\x01\x02\x03\x04", "data.hex": "0123abcd"}, None))
     # the group size of the listing formats, a number on the command line: small (fine), at the machine word (an
     # invalid argument), and in between (rows are padded to the group width: the known finding F53)
